@@ -515,6 +515,8 @@ pub fn c01(tier: &str, seed: u64) -> i32 {
         }
         run_closure(&mut ctx, &format!("{} [bytes, BucketsSize(10) requested]", a.label), &cfg, starts, 100_000, 20.0);
         non_utf8_closure(&mut ctx, "C01", O_API, 0);
+        // byte keys that are prefixes of each other (and the empty key) in one chain
+        explicit_keys_closure(&mut ctx, "C01", KtId::Bytes, vec![b"ab".to_vec(), b"abc".to_vec(), Vec::new()], vec![5], O_API, 0, "3 byte keys `ab`, `abc` and the empty key x {5} [bytes, 1 bucket]", 100_000, 10.0);
     }
     if ctx.run.violations.is_empty() {
         let step = if ctx.thorough() { 1 } else { 4 };
@@ -889,6 +891,15 @@ pub fn c15(tier: &str, seed: u64) -> i32 {
         run_closure(&mut ctx, &format!("{} [bytes]", a.label), &cfg, starts, if thorough { 20_000 } else { 400 }, if thorough { 120.0 } else { 8.0 });
     }
     {
+        // a key longer than 64 KiB
+        let a = Alpha { label: "1 key of 70000 bytes + 1 short key x {5}", colliding: vec![70_000], other: vec![5], vals: vec![5] };
+        let mut cfg = make_cfg("C15", KtId::Bytes, 8, &a, seed);
+        cfg.oracles = O_RO;
+        cfg.ro_mode = 1;
+        let starts: Vec<Start> = empty_start(&mut ctx, &cfg).into_iter().collect();
+        run_closure(&mut ctx, &format!("{} [bytes]", a.label), &cfg, starts, 200, 6.0);
+    }
+    {
         // a table larger than one buffer chunk of bitmap (more than 131072 buckets)
         let a = Alpha { label: "1 key x {5}", colliding: vec![5], other: vec![], vals: vec![5] };
         let mut cfg = make_cfg("C15", KtId::Bytes, 262_144, &a, seed);
@@ -943,6 +954,15 @@ pub fn c17(tier: &str, seed: u64) -> i32 {
     }
     if ctx.run.violations.is_empty() {
         many_sizes_closure(&mut ctx, "C17", o, clauses, 20_000, 10.0);
+    }
+    if ctx.run.violations.is_empty() {
+        // lengths that are multiples of 64 KiB (a length kept in fewer bits would read as zero)
+        let a = Alpha { label: "2 colliding keys x {5,65536,131072}", colliding: vec![5, 5], other: vec![], vals: vec![5, 65_536, 131_072] };
+        let mut cfg = make_cfg("C17", KtId::Bytes, 8, &a, seed);
+        cfg.oracles = o;
+        cfg.clauses = clauses;
+        let starts: Vec<Start> = empty_start(&mut ctx, &cfg).into_iter().collect();
+        run_closure(&mut ctx, &format!("{} [bytes]", a.label), &cfg, starts, 600, 6.0);
     }
     if ctx.run.violations.is_empty() {
         let t = ctx.thorough();
